@@ -172,6 +172,10 @@ def run(run: common.Run):
             # 8-bit source whose validity is an alpha band with semi-transparent (1..254) valid pixels
             case['src_nodata'] = 'alpha'
             run.hist['source with a partly semi-transparent alpha band'] += 1
+        if case['hyp'] and case['i'] % 4 == 3:
+            # validity by the NODATA_VALUES metadata item (mosaics made by gdalwarp / gdal_merge)
+            case['src_nodata'] = 'nodata_values'
+            run.hist['source with a NODATA_VALUES metadata item'] += 1
         pair = fusion.write_pair(tmp, 'c03', src, ref, s, r, sv, rv, src_nodata=case['src_nodata'])
         proc_ref = (case['proc'] == 'ref') or (case['proc'] == 'auto' and src.px <= ref.px)
         nod = float('nan') if case['out_nodata'] == 'nan' else case['out_nodata']
